@@ -11,7 +11,8 @@ REPO = "/repo"
 # (name, property, file, old, new)
 MUTANTS = [
     ("gf-weight-sign", "C01", "src/pomerol/GreensFunctionPart.cpp", "(DMpartOuter.getWeight(index1) + DMpartInner.getWeight(C_index2))", "(DMpartOuter.getWeight(index1) - DMpartInner.getWeight(C_index2))"),
-    ("gf-merge-walk", "C01", "src/pomerol/GreensFunction.cpp", "if(CleftInt <= CXrightInt) Citer++;", "if(CleftInt < CXrightInt) Citer++;"),
+    # ("gf-merge-walk": `<=` -> `<` in the merge walk is an EQUIVALENT mutant: on equal keys only one iterator advances and the other follows in the next round)
+    ("gf-merge-skip", "C01", "src/pomerol/GreensFunction.cpp", "if(Cleft == CXright && Cright == CXleft){", "if(Cleft == CXright && Cright == CXleft && (Cleft != 2 || CNontrivialBlocks.size() < 4)){"),
     ("gfcontainer-swap", "C01", "src/pomerol/GFContainer.cpp", "Operators.getAnnihilationOperator(Indices.Index1),\n                                   Operators.getCreationOperator(Indices.Index2),DM);", "Operators.getAnnihilationOperator(Indices.Index2),\n                                   Operators.getCreationOperator(Indices.Index1),DM);"),
     ("chi-z2-sign", "C02", "src/pomerol/TwoParticleGFPart.cpp", "ComplexType CoeffZ2 = -Coeff*(Wj + Wk);", "ComplexType CoeffZ2 = Coeff*(Wj + Wk);"),
     ("chi-res23", "C02", "src/pomerol/TwoParticleGFPart.cpp", "ComplexType CoeffZ2Z3Res = -Coeff*beta*Wj;", "ComplexType CoeffZ2Z3Res = Coeff*beta*Wj;"),
@@ -65,60 +66,68 @@ def sh(cmd, **kw):
     return subprocess.run(cmd, shell=True, stdout=subprocess.PIPE, stderr=subprocess.STDOUT, text=True, **kw)
 
 
-def clean_repo():
-    sh("git -C %s checkout -- ." % REPO)
+SCRATCH = "/tmp/pvself"
 
 
-def run_check(pid, timeout=1500):
+def run_check(pid, repo, timeout=2400):
     t0 = time.time()
-    p = sh("timeout %d ./check %s --tier quick" % (timeout, pid), cwd=VERIF)
+    env = dict(os.environ, VERIF_REPO=repo)
+    p = sh("timeout %d ./check %s --tier quick" % (timeout, pid), cwd=VERIF, env=env)
     viol = [l for l in p.stdout.splitlines() if l.startswith("VIOLATION") or l.startswith("violation")]
     return p.returncode, time.time() - t0, viol[:2], p.stdout[-600:]
+
+
+def tree_hash_of(repo):
+    r = sh("VERIF_REPO=%s python3-vt -c \"import sys; sys.path.insert(0,'%s/tools'); import build; print(build.tree_hash())\"" % (repo, VERIF))
+    h = r.stdout.strip().splitlines()[-1] if r.stdout.strip() else ""
+    return h if len(h) == 16 else None
+
+
+def one(m):
+    """one mutant in a scratch worktree of /repo's HEAD (outside /repo and /verif), removed afterwards together with its build"""
+    (name, pid, fn, old, new) = m
+    wt = os.path.join(SCRATCH, name)
+    sh("git -C %s worktree remove --force %s" % (REPO, wt))
+    sh("git -C %s worktree add --detach %s HEAD" % (REPO, wt))
+    try:
+        path = os.path.join(wt, fn)
+        src = open(path).read()
+        if src.count(old) < 1:
+            return name, {"property": pid, "status": "pattern-not-found"}
+        open(path, "w").write(src.replace(old, new, 1))
+        rc, wall, viol, tail = run_check(pid, wt)
+        status = "caught" if rc == 1 else ("build-or-infra" if rc == 2 else "MISSED" if rc == 0 else "rc=%s" % rc)
+        res = {"property": pid, "file": fn, "status": status, "wall_s": round(wall), "first_violation": viol[0][:300] if viol else None}
+        if rc not in (0, 1):
+            res["tail"] = tail[-300:]
+        h = tree_hash_of(wt)
+        if h:
+            sh("rm -rf %s/build/%s" % (VERIF, h))
+        return name, res
+    finally:
+        sh("git -C %s worktree remove --force %s" % (REPO, wt))
 
 
 def main():
     args = sys.argv[1:]
     os.makedirs(os.path.join(VERIF, "selftest"), exist_ok=True)
+    os.makedirs(SCRATCH, exist_ok=True)
     resfile = os.path.join(VERIF, "selftest", "results.json")
     results = json.load(open(resfile)) if os.path.exists(resfile) else {}
-    if sh("git -C %s status --porcelain -- src include" % REPO).stdout.strip():
-        print("refusing: /repo has uncommitted changes under src/ include/")
-        sys.exit(2)
-    if args and args[0] == "--patch":
-        patch, pids = args[1], args[2:]
-        try:
-            r = sh("git -C %s apply %s" % (REPO, patch))
-            if r.returncode != 0:
-                print("patch does not apply:", r.stdout)
-                sys.exit(2)
-            for pid in pids:
-                rc, wall, viol, tail = run_check(pid)
-                print("%s on %s: rc=%s (%.0fs) %s" % (os.path.basename(os.path.dirname(patch)) or patch, pid, rc, wall, viol[:1]))
-                results["patch:%s:%s" % (patch, pid)] = {"rc": rc, "wall": round(wall), "violation": viol[:1]}
-        finally:
-            clean_repo()
-        json.dump(results, open(resfile, "w"), indent=1)
-        return
-    only = set(args)
-    for (name, pid, fn, old, new) in MUTANTS:
-        if only and name not in only and pid not in only:
-            continue
-        path = os.path.join(REPO, fn)
-        src = open(path).read()
-        if src.count(old) < 1:
-            print("%-26s %s: pattern not found in %s" % (name, pid, fn))
-            results[name] = {"property": pid, "status": "pattern-not-found"}
-            continue
-        try:
-            open(path, "w").write(src.replace(old, new, 1))
-            rc, wall, viol, tail = run_check(pid)
-        finally:
-            clean_repo()
-        status = "caught" if rc == 1 else ("build-or-infra" if rc == 2 else "MISSED" if rc == 0 else "rc=%s" % rc)
-        print("%-26s %s: %s (%.0fs) %s" % (name, pid, status, wall, (viol[0][:160] if viol else tail[-200:].replace("\n", " | ") if rc != 1 else "")))
-        sys.stdout.flush()
-        results[name] = {"property": pid, "file": fn, "status": status, "wall_s": round(wall), "first_violation": viol[0][:300] if viol else None}
-        json.dump(results, open(resfile, "w"), indent=1)
+    jobs = 1
+    if args and args[0] == "-j":
+        jobs = int(args[1])
+        args = args[2:]
+    redo = "--redo" in args
+    only = set(a for a in args if not a.startswith("--"))
+    todo = [m for m in MUTANTS if (not only or m[0] in only or m[1] in only) and (redo or only or results.get(m[0], {}).get("status") not in ("caught",))]
+    from concurrent.futures import ThreadPoolExecutor
+    with ThreadPoolExecutor(max_workers=jobs) as ex:
+        for name, res in ex.map(one, todo):
+            results[name] = res
+            print("%-26s %s: %s (%ss) %s" % (name, res["property"], res["status"], res.get("wall_s"), (res.get("first_violation") or res.get("tail") or "")[:150].replace("\n", " | ")))
+            sys.stdout.flush()
+            json.dump(results, open(resfile, "w"), indent=1)
 
 
 if __name__ == "__main__":
